@@ -243,7 +243,7 @@ func (x *xgen) maybeArrowSeq(s *XExpr, p int) *XExpr {
 func RandXGrammar(r *rand.Rand, opt XGenOptions) *XGrammar {
 	g := &XGrammar{FixWS: opt.FixWS}
 	x := &xgen{r: r, g: g, opt: opt}
-	x.nT = 3 + r.Intn(5)
+	x.nT = 5 + r.Intn(8)
 	for i := 0; i < x.nT; i++ {
 		g.Terms = append(g.Terms, TermName(i))
 	}
